@@ -135,6 +135,9 @@ pub enum ClientStep {
     AwaitEof,
     /// wait until at least this many response bytes were received
     AwaitLen(usize),
+    /// wait until, after the first k final responses, at least one further complete message
+    /// (interim or final) has arrived, or the server has closed
+    AwaitAfterFinals(usize),
     /// move the virtual wall clock
     JumpWall(i64),
 }
@@ -226,6 +229,10 @@ pub struct RespSpec {
     /// apply with_data after this many of the non-constructor headers (None = after all of them)
     #[serde(default)]
     pub replace_at: Option<usize>,
+    /// Ctor::New: after handing out every byte of the body the reader reports an I/O error
+    /// instead of end-of-stream (the complete body has been delivered by then)
+    #[serde(default)]
+    pub fail_at_end: bool,
 }
 
 impl RespSpec {
@@ -240,6 +247,7 @@ impl RespSpec {
             pieces: vec![],
             replace_data: None,
             replace_at: None,
+            fail_at_end: false,
         }
     }
 }
